@@ -393,6 +393,48 @@ def run(rep, pdb, tier):
             ok = okv and okb and okr and okz and ctx.term(fn["body"]["expr"]) == e.target
             det = "formula=%s bracket on the same cell=%s (snap windows %s, each a literal <= 1e-6: %s) cells 0..len-1=%s result has nvars entries=%s" % (okv, okb, snaps, oksnap, okr, okz)
         rep.add("interpolation", rule, ok, fn["body"], det, where=loc(fn["body"]))
+        # an early `return` may only give up on positions OUTSIDE the mesh: left of the first node or right of the last one
+        # (by any non-negative margin).  `x < first + 1e-7` also gives up AT the first node.
+        from .guards import facts as _fx
+        ctxi = Ctx.for_fn(pdb, fn)
+        XP = P(1)
+        FIRST = ("idx", NODES, num(0))
+        LASTN = ("idx", NODES, lin_add(SIZE(NODES), num(-1)))
+
+        def _res(t_):
+            if isinstance(t_, tuple):
+                if t_ and t_[0] == "var" and len(t_) == 2 and ctxi.def_term(t_) is not None:
+                    return _res(ctxi.def_term(t_))
+                return tuple(_res(x_) if isinstance(x_, tuple) else x_ for x_ in t_)
+            return t_
+
+        def _outside(at):
+            """x < first - c  or  last + c < x  with c >= 0"""
+            if at[0] != "cmp" or at[1] not in ("<", "<="):
+                return False
+            lo, hi = _res(at[2]), _res(at[3])
+            def margin(t_, base):
+                if t_ == base:
+                    return 0
+                if t_[0] == "op" and t_[1] in ("+", "-") and t_[2] == base and t_[3][0] == "num":
+                    return t_[3][1] if t_[1] == "+" else -t_[3][1]
+                return None
+            if lo == XP:
+                m = margin(hi, FIRST)
+                return m is not None and m <= 0
+            if hi == XP:
+                m = margin(lo, LASTN)
+                return m is not None and m >= 0
+            return False
+        bad_r = []
+        for r_ in [n for n in walk(fn["body"]) if n.get("k") == "Ret" and not any(a.get("k") == "Closure" for a in ancestors(n))]:
+            fs = _fx(ctxi, r_)
+            okr_ = any(_outside(f_) for f_ in fs) or any(f_[0] == "or" and all(len(a_) == 1 and _outside(a_[0]) for a_ in f_[1]) for f_ in fs)
+            if not okr_:
+                bad_r.append(r_)
+        rep.add("interpolation/early-return", "an early return of get_interpolated_vars gives up only on positions outside the mesh (x < first - c or x > last + c, c >= 0); every position from the first "
+                "node to the last one goes through the cell search", not bad_r, bad_r[0] if bad_r else fn["body"], "early returns not confined to the outside: %d" % len(bad_r),
+                where=loc(bad_r[0]) if bad_r else loc(fn["body"]))
     # ---- io agreement
     w, rd = pdb.fn("%s::output" % M1), pdb.fn("%s::read" % M1F)
     rule = ("writer: per node one coordinate then nvars values (one record per node in index order); reader: stride nvars+1, token i is a coordinate iff i % stride == 0 and "
